@@ -441,6 +441,9 @@ func Generate(r *gen.R, p Params) *H {
 			}
 		}
 	}
+	if r.Chance(0.25) {
+		h.Stale = r.Range(1, 4) // re-annotation of parents that already carry updates
+	}
 	if r.Chance(0.4) {
 		subSecond(h, r)
 	}
